@@ -3,7 +3,8 @@
 -/
 import PatchModel.Spec.Script
 import PatchModel.Model.Stream
-namespace PatchModel
+namespace PatchModel.Render
+open PatchModel
 
 /-! ### renderLines -/
 
@@ -71,7 +72,7 @@ theorem mkLine_newline_ne_none (cur : Bytes) : (mkLine cur).newline ≠ .none :=
 theorem mkLine_content_subset (cur : Bytes) : ∀ b ∈ (mkLine cur).content, b ∈ cur := by
   unfold mkLine
   split
-  · intro b hb; exact List.mem_of_mem_dropLast hb
+  · intro b hb; exact List.dropLast_subset _ hb
   · intro b hb; exact hb
 
 theorem mkLine_lf (cur : Bytes) (h : (mkLine cur).newline = .lf) :
@@ -163,7 +164,7 @@ theorem splitLinesGo_none_last (cur bs : Bytes) (pre post : List Line) (l : Line
     split at h
     · simp at h
     · cases pre with
-      | nil => simp at h; exact h.2.symm
+      | nil => simp at h; exact h.2
       | cons a pre => simp at h
   | cons c rest ih =>
     unfold splitLinesGo at h
@@ -204,4 +205,4 @@ theorem copyRange_map_line (file : List Line) (i n : Nat) :
   simp only [this]
   exact List.zipIdx_map_fst _ _
 
-end PatchModel
+end PatchModel.Render
